@@ -256,7 +256,9 @@ PROPS = {
                     "purge_effective, next request refetches, absent-key no-op, never strands (measure unchanged, progress), other keys untouched (dispatcher frame).", with_choreo=True,
                     extra={"edge": {"quick": 2, "thorough": 40, "search": 6, "no_cases": True}}),
     "C02": sys_prop(["every upstream exchange eventually ends (the proxy timeout turns silence into a 504): upstream steps are always-enabled environment steps"],
-                    "no_deadlock + strictly decreasing well-founded measure + final_clean over all label sequences.", with_wakeup=True, with_choreo=True),
+                    "no_deadlock + strictly decreasing well-founded measure + final_clean over all label sequences.", with_wakeup=True, with_choreo=True,
+                    # real parallelism: hits reading their age while other requests enter Get on the same entry
+                    extra={"keys": {"quick": 30, "thorough": 300, "search": 60}}),
     "C01": {
         "families": {"flight": flight_family(120, 1500, 300), "wakeup": WAKEUP_FAMILY, "choreo": CHOREO_FAMILY,
                      # requests on other keys: the shard a key maps to must not depend on concurrent traffic
@@ -283,7 +285,9 @@ PROPS = {
     },
     "C13": {
         "families": {"negotiate": {"quick": 400, "thorough": 8000, "search": 3000,
-                                   "components": NEGOTIATE_COMPONENTS}, "edge": {"quick": 2, "thorough": 40, "search": 6, "no_cases": True}},
+                                   "components": NEGOTIATE_COMPONENTS}, "edge": {"quick": 2, "thorough": 40, "search": 6, "no_cases": True},
+                     # the threshold and filter in force after reloads (set, changed, unset) are those of a fresh start
+                     "reconf": {"quick": 20, "thorough": 300, "search": 80, "components": ["mismatch", "monitor"]}},
         "signature": sig_resp,
         "trusted_base": RESP_TRUST,
         "assumptions": ["Accept-Encoding is a plain list of codings (substring test = token membership on the standard tokens)"],
@@ -309,7 +313,7 @@ PROPS = {
         "explanation": "key_injective + lookup_exact (any hash, any history); the system-level no-cross-serve statement is proved over the entry-protocol model (Properties/C01.v ff.).",
     },
     "C14": {
-        "families": {"route": {"quick": 600, "thorough": 12000, "search": 4000}},
+        "families": {"route": {"quick": 400, "thorough": 12000, "search": 4000}},
         "signature": sig_c14,
         "trusted_base": [
             "model coq/Model/Location.v is hand-written from location/location.go (Match, getPriority, Set, Get); sort.Slice is modelled as *any* priority-ordered permutation in the theorems and as a stable insertion sort in the executable comparison (projected on found?/class)",
